@@ -61,6 +61,8 @@ type API struct {
 	Unary         func(ctx context.Context, tok int) (int, error)
 	Notify        func(ctx context.Context, tok int) error        `notify:"true"`
 	Retry         func(ctx context.Context, tok int) (int, error) `retry:"true"`
+	RetryNC       func(tok int) (int, error)                      `retry:"true"` // retry-tagged, no context parameter
+	Raw           func(ctx context.Context, p jsonrpc.RawParams) (int, error)
 	Sub           func(ctx context.Context, tok int, n int) (<-chan [2]int, error)
 	Big           func(ctx context.Context, tok int, size int) (string, error)
 	BigReq        func(ctx context.Context, tok int, pad string) (int, error)
@@ -313,9 +315,11 @@ func (h *H) body(ctx context.Context, tok int, method string) (int, error) {
 	return tok, nil
 }
 
-func (h *H) Unary(ctx context.Context, tok int) (int, error) { return h.body(ctx, tok, "Unary") }
-func (h *H) Retry(ctx context.Context, tok int) (int, error) { return h.body(ctx, tok, "Retry") }
-func (h *H) Notify(ctx context.Context, tok int)             { h.body(ctx, tok, "Notify") }
+func (h *H) Unary(ctx context.Context, tok int) (int, error)           { return h.body(ctx, tok, "Unary") }
+func (h *H) Retry(ctx context.Context, tok int) (int, error)           { return h.body(ctx, tok, "Retry") }
+func (h *H) RetryNC(ctx context.Context, tok int) (int, error)         { return h.body(ctx, tok, "RetryNC") }
+func (h *H) Raw(ctx context.Context, p jsonrpc.RawParams) (int, error) { return len(p), nil }
+func (h *H) Notify(ctx context.Context, tok int)                       { h.body(ctx, tok, "Notify") }
 
 func (h *H) Big(ctx context.Context, tok int, size int) (string, error) {
 	p, leave := h.enter(ctx, tok, "Big")
@@ -377,12 +381,22 @@ func doPanic(kind string) {
 	case "index":
 		var s []int
 		_ = s[3]
+	case "aborthandler":
+		panic(http.ErrAbortHandler) // the sentinel net/http uses to abort a response quietly
 	}
 	panic("boom default")
 }
 
 func (h *H) Panic(ctx context.Context, tok int, kind string) (int, error) {
 	_, leave := h.enter(ctx, tok, "Panic")
+	if strings.HasPrefix(kind, "aftercancel:") { // the handler notices that its caller cancelled, then panics
+		select {
+		case <-ctx.Done():
+		case <-time.After(3 * time.Second):
+			h.w.Rec.Emit("CtxMissing", "call", tok)
+		}
+		kind = strings.TrimPrefix(kind, "aftercancel:")
+	}
 	leave("panic")
 	doPanic(kind)
 	return 0, nil
@@ -521,6 +535,7 @@ func (h *H) Sub(ctx context.Context, tok int, n int) (<-chan [2]int, error) {
 			select {
 			case <-ctx.Done():
 			case <-p.release:
+				w.Rec.Emit("HandlerChanClose", "call", tok)
 			case <-time.After(patience(time.Duration(p.NoCloseMs+2000) * time.Millisecond)):
 				if p.WaitCtx {
 					w.Rec.Emit("CtxMissing", "call", tok)
@@ -746,7 +761,11 @@ func transportOf(c *Client) string {
 func (c *Client) Call(ctx context.Context, kind string, tok int, arg ...interface{}) (outcome string) {
 	w := c.w
 	w.markStart(tok)
-	w.Rec.Emit("CallStart", "call", tok, "cli", c.Name, "kind", kind, "transport", transportOf(c))
+	logKind := kind
+	if kind == "retrync" {
+		logKind = "retry" // same contract as any retry-tagged call
+	}
+	w.Rec.Emit("CallStart", "call", tok, "cli", c.Name, "kind", logKind, "transport", transportOf(c))
 	var err error
 	token := -1
 	detail := ""
@@ -755,6 +774,8 @@ func (c *Client) Call(ctx context.Context, kind string, tok int, arg ...interfac
 		token, err = c.API.Unary(ctx, tok)
 	case "retry":
 		token, err = c.API.Retry(ctx, tok)
+	case "retrync":
+		token, err = c.API.RetryNC(tok)
 	case "notify":
 		err = c.API.Notify(ctx, tok)
 		token = tok
@@ -816,6 +837,18 @@ func (c *Client) CallBigReq(ctx context.Context, tok int, size int) string {
 func (c *Client) CallT(kind string, tok int, d time.Duration) string {
 	res := make(chan string, 1)
 	go func() { res <- c.Call(context.Background(), kind, tok) }()
+	select {
+	case o := <-res:
+		return o
+	case <-time.After(d):
+		return "pending"
+	}
+}
+
+// CallT2 is CallT with a context and arguments.
+func (c *Client) CallT2(ctx context.Context, kind string, tok int, d time.Duration, arg ...interface{}) string {
+	res := make(chan string, 1)
+	go func() { res <- c.Call(ctx, kind, tok, arg...) }()
 	select {
 	case o := <-res:
 		return o
